@@ -25,14 +25,6 @@ Proof.
     destruct (su_step nd h) as [h'|e h'|]; simpl; [apply IH; exact Hr| |]; exists (LNext acc); reflexivity.
 Qed.
 
-Lemma kids_remove_plain q nd h1 h2 x :
-  remove_child_plain q nd h1 = HOk h2 -> x <> q -> kids h2 x = kids h1 x.
-Proof.
-  unfold remove_child_plain. destruct (memz nd (kids h1 q)); [|discriminate].
-  intros E N. inversion E; subst. rewrite kids_set_kids.
-  destruct (Z.eqb_spec x q); [contradiction|apply kids_set_parent].
-Qed.
-
 Lemma gen_set_seed_node_exact i h :
   parent h i = None -> Tree__set_seed_node HG i h = MOk tt (set_seed_node i h).
 Proof. intro Hp. apply (proj2 (gen_set_seed_node i h)). rewrite Hp. exact I. Qed.
